@@ -411,6 +411,12 @@ func structsEqual(x, y any) (err error) {
 			}
 		}
 
+		// unexported fields cannot be read through
+		// reflection; skip them rather than panic.
+		if !xvf.CanInterface() || !yvf.CanInterface() {
+			continue
+		}
+
 		err = valuesEqual(xvf.Interface(), yvf.Interface())
 	}
 
